@@ -79,14 +79,7 @@ impl Op {
 struct Hist { wal: bool, ops: Vec<Op> }
 
 /// Rust port of `in_lang` (coq/Model/Persist.v): the history is inside the modelled language
-fn in_lang(h: &Hist) -> bool {
-    let mut dropped = [false; NT];
-    for op in &h.ops {
-        if !op.modelled() { return false; }
-        match op { Op::Drop(t) => dropped[*t] = true, Op::Create(t, _) => if dropped[*t] { return false; }, _ => {} }
-    }
-    true
-}
+fn in_lang(h: &Hist) -> bool { h.ops.iter().all(|o| o.modelled()) }
 
 fn parse_t(s: &str) -> Option<usize> { let t: usize = s.parse().ok()?; if t < NT { Some(t) } else { None } }
 
@@ -384,40 +377,20 @@ fn oracle(h: &Hist, a: &[Obs], b: &[Obs]) -> bool {
 }
 
 // ------------------------------------------------------------------ the recorded finding classes
-/// Rust port of `known_class_of` in coq/Model/Persist.v (three scanners over the history and what
-/// its statements returned in run A).  Used for the run statistics and for the `class=` suffix of
+/// Rust port of `known_class_of` in coq/Model/Persist.v (a scanner over the history and what its
+/// statements returned in run A).  Used for the run statistics and for the `class=` suffix of
 /// `search` output; the judge of a correspondence run is the Coq definition.
-///  1: an INSERT after a close/drop + open that follows an INSERT (next_row_id restarts at 1);
 ///  2: a replaying checkpoint (PRAGMA wal_checkpoint, automatic checkpoint at COMMIT, drop without
-///     close) while a table may have a page image in the WAL that is older than the page;
-///  3: a table name dropped and created again in a history that reopens the database.
+///     close) while a table may have a page image in the WAL that is older than the page.
+/// (Historical classes 1 = INSERT after reopen, fixed in /repo 60cb117, and 3 = drop + re-create,
+///  fixed in /repo affacca, are gone: those histories must pass now.)
 fn known_class(h: &Hist, oa: &[Obs]) -> i64 {
     let is_err = |x: &Obs| !matches!(x, Obs::Ok(_));
     let ok_pos = |x: &Obs| matches!(x, Obs::Ok(n) if *n > 0);
-    // class 1
-    let (mut ins, mut ro, mut c1) = (false, false, false);
-    // class 2
     let (mut wal, mut txn, mut auto, mut c2) = (h.wal, false, false, false);
     let mut lg = [false; NT];
     let mut st = [false; NT];
-    // class 3
-    let mut dropped = [false; NT];
-    let (mut recreated, mut reopened) = (false, false);
     for (op, x) in h.ops.iter().zip(oa.iter()) {
-        // ---- 1
-        match op {
-            Op::Ins(..) | Op::Bulk(..) => { c1 = c1 || ro; ins = true; }
-            Op::ReopenClose | Op::ReopenDrop => ro = ro || ins,
-            _ => {}
-        }
-        // ---- 3
-        match op {
-            Op::Drop(t) => dropped[*t] = true,
-            Op::Create(t, _) => recreated = recreated || dropped[*t],
-            Op::ReopenClose | Op::ReopenDrop => reopened = true,
-            _ => {}
-        }
-        // ---- 2
         let mut touch = |t: usize, changed: bool, flushed: bool, lg: &mut [bool; NT], st: &mut [bool; NT]| {
             let logged = wal && !txn && flushed;
             if logged { lg[t] = true; }
@@ -447,7 +420,7 @@ fn known_class(h: &Hist, oa: &[Obs]) -> i64 {
             _ => {}
         }
     }
-    if c2 { 2 } else if recreated && reopened { 3 } else if c1 { 1 } else { 0 }
+    if c2 { 2 } else { 0 }
 }
 
 // ------------------------------------------------------------------ generators
@@ -649,7 +622,7 @@ fn gen_history(rng: &mut Rng, thorough: bool, wide: bool) -> (Hist, &'static str
             }
         }
     } else if fam < 83 {
-        // class 1 territory: inserts on both sides of a reopen
+        // inserts on both sides of a reopen (the counter is rebuilt from the stored keys at open)
         kind = "insert_after_reopen";
         while g.ops.len() < len + 2 {
             match g.rng.below(8) {
@@ -693,7 +666,7 @@ fn gen_history(rng: &mut Rng, thorough: bool, wide: bool) -> (Hist, &'static str
             }
         }
     } else {
-        // class 3 territory: a table name is dropped and created again, then the database is reopened
+        // a table name is dropped and created again, then the database is reopened
         kind = "drop_recreate";
         let n0 = 1 + g.rng.below(3);
         for _ in 0..n0 { g.insert(); }
